@@ -2,9 +2,11 @@
 import lib
 
 ID = 'C15'
-GEN_FILES = ['T_p8scii']
+GEN_FILES = ['T_p8scii',
+             # source pins of the hand-modelled modules (gen/kernels_pins.py)
+             'T_pins_luamin', 'T_pins_p8']
 COQ_PROPERTY = 'theories/Properties/C15.vo'
-COQ_EXTRA = []
+COQ_EXTRA = ['theories/Proofs/LuaMinPins.vo', 'theories/Proofs/P8Pins.vo']
 MODEL = ('ExC15', 'c15_main.ml')
 MONITOR = ('MonC15', 'c15_mon_main.ml')
 RULE = ('valid stream: all 256 single bytes, all 65,536 byte pairs (grouped by first byte), random long strings; '
